@@ -47,7 +47,7 @@ LEAF_TYPES = {
     "tuple": ([("i", "int", "-2**31 <= {0} < 2**31")], lambda p: (p["i"], 1)),
     "dict": ([("i", "int", "-2**31 <= {0} < 2**31")], lambda p: {"k": p["i"]}),
     "none": ([("b", "bool", None), ("i", "int", "-2**31 <= {0} < 2**31")], lambda p: (None if p["b"] else p["i"])),
-    "path": ([("k", "int", "0 <= {0} <= 2")], lambda p: PurePosixPath(["/a", "/b", "/a/b"][p["k"]])),
+    "path": ([("k", "int", "0 <= {0} <= 2")], lambda p: PurePosixPath(["/a", "a/b", "/a//b/../c"][p["k"]])),
 }
 
 
@@ -166,12 +166,15 @@ def queries(tier):
     qs.append(_q("hist.T1.int.ac.eval", "T1", [{"variants": A, "style": "eval"}, {"variants": C, "style": "call"}], {"G": "int"}))
     qs.append(_q("hist.T1.int.ad.noop", "T1", [{"variants": A}, {"variants": D}], {"G": "int"}, store="noop"))
     qs.append(_q("hist.T1.int.ab.lru", "T1", [{"variants": A}, {"variants": B}], {"G": "int"}, store="lru"))
-    # T3: constant / default / keyword / run-time arguments
-    qs.append(_q("hist.T3.aa.n", "T3", [{"variants": A, "style": "eval"}, {"variants": A, "style": "eval"}], nargs=True, timeout=500, fixed={"G": [0, 0]}))
-    qs.append(_q("hist.T3.aa.G", "T3", [{"variants": A, "style": "eval"}, {"variants": A, "style": "eval"}], nargs=True, timeout=500, fixed={"n": [1, 1]}))
-    qs.append(_q("hist.T3.ab", "T3", [{"variants": A, "style": "eval"}, {"variants": B, "style": "eval"}], nargs=True, timeout=500, fixed={"G": [0, 0], "n": [1, 1]}))
-    qs.append(_q("hist.T3.ac", "T3", [{"variants": A, "style": "eval"}, {"variants": C, "style": "eval", "restart": True}], nargs=True, timeout=500, fixed={"G": [0, 0], "n": [1, 1]}))
+    # T3: constant / default / keyword arguments;  T4: run-time argument
+    E = {"style": "eval"}
+    qs.append(_q("hist.T3.aa.G", "T3", [dict(E, variants=A), dict(E, variants=A)], nargs=True, timeout=500, fixed={"n": [1, 1]}))
+    for v in "bcd":
+        qs.append(_q("hist.T3.a%s" % v, "T3", [dict(E, variants=A), dict(E, variants={"tq.m1": v}, restart=(v == "c"))], nargs=True, timeout=500, fixed={"G": [0, 0], "n": [1, 1]}))
     qs.append(_q("hist.T3.keep", "T3", [{"variants": A, "style": "keep", "entry": ["tq.m1", "g"], "path": "/t3/d"}, {"variants": A, "style": "keep", "entry": ["tq.m1", "g"], "path": "/t3/d"}], nargs=True))
+    qs.append(_q("hist.T4.aa.n", "T4", [dict(E, variants=A), dict(E, variants=A)], nargs=True, timeout=500, fixed={"G": [0, 0]}))
+    qs.append(_q("hist.T4.aa.G", "T4", [dict(E, variants=A), dict(E, variants=A)], nargs=True, timeout=500, fixed={"n": [1, 1]}))
+    qs.append(_q("hist.T4.ab", "T4", [dict(E, variants=A), dict(E, variants=B)], nargs=True, timeout=500, fixed={"G": [0, 0], "n": [1, 1]}))
     # T5: class, variables read in two methods
     qs.append(_q("hist.T5.aa", "T5", [{"variants": A}, {"variants": A}]))
     qs.append(_q("hist.T5.ab", "T5", [{"variants": A}, {"variants": B}]))
